@@ -153,6 +153,7 @@ func init() {
 	gtFamily("81-gotrans-directives", []gtItem{
 		{dir: "soyhtml", key: "directiveTruncate", cfg: &gtCfg{fuel: map[int]string{1: "maxLen + 2"}}},
 		it("soyhtml", "directiveInsertWordBreaks"),
+		it("soyhtml", "directiveChangeNewlineToBr"),
 	})
 	// soymsg: tagName, the html placeholder name, hash32 with its block loop (fuel: one iteration per 12 bytes of
 	// limit-start, stated generously); lemmas in Proofs/SourceTieMsgLoops.v (C10 C11)
@@ -166,5 +167,6 @@ func init() {
 		it("soymsg", "tagName"),
 		{dir: "soymsg", key: "genBasePlaceholderNameFromHtml", cfg: &gtCfg{abstract: []string{"toUpperUnderscore"}}},
 		{dir: "soymsg", key: "hash32", cfg: &gtCfg{fuel: map[int]string{1: "limit - start + 1"}}},
+		it("soymsg", "toUpperUnderscore"),
 	})
 }
